@@ -34,7 +34,7 @@ impl<const CAP: usize> RecordMaybeUninit<CAP> {
     pub unsafe fn write<T>(&mut self, offset: usize, t: T) {
         #[cfg(truc_verif)]
         crate::verif::prim::<T>("write", self.data.as_ptr() as usize, CAP, offset);
-        std::ptr::write((self.data.as_ptr().add(offset) as *mut u8).cast(), t);
+        std::ptr::write((self.data.as_mut_ptr().add(offset) as *mut u8).cast(), t);
     }
 
     /// Gets a reference to object of type `T` from the record at offset `offset`.
@@ -56,7 +56,7 @@ impl<const CAP: usize> RecordMaybeUninit<CAP> {
     pub unsafe fn get_mut<T>(&mut self, offset: usize) -> &mut T {
         #[cfg(truc_verif)]
         crate::verif::prim::<T>("get_mut", self.data.as_ptr() as usize, CAP, offset);
-        &mut *(self.data.as_ptr().add(offset) as *mut u8).cast()
+        &mut *(self.data.as_mut_ptr().add(offset) as *mut u8).cast()
     }
 }
 
